@@ -87,6 +87,35 @@ int main(void)
   pid_t w = waitpid(c, &st, 0);
   P("child: kill_on_zombie=%d wait_ok=%d exited=%d code=%d\n", k0, w == c, WIFEXITED(st), WEXITSTATUS(st));
   P("again: wait=%d errno=%d kill=%d errno=%d\n", (int) waitpid(c, &st, 0), errno, kill(c, 0), errno);
+  /* 12b: the child ends but a descendant of it holds its end of a pipe (ChildExitG / GrandGone in the model):
+     no hang-up on the pipe although the child can be reaped; hang-up once the descendant is gone too */
+  {
+    int x[2], g[2];
+    if (pipe(x) || pipe(g)) return 2;
+    fflush(stdout);
+    pid_t cc = fork();
+    if (cc == 0) {
+#ifdef SIMK
+      extern int sk_cur; extern void __real__exit(int);
+      sk_child_exit_keep(sk_cur, 7 << 8); __real__exit(0);
+#else
+      if (fork() == 0) { close(g[1]); char ch; while (read(g[0], &ch, 1) > 0) {} _exit(0); }
+      _exit(7);
+#endif
+    }
+    close(x[1]); close(g[0]);
+    int stg = 0, tries = 0; pid_t wg = 0;
+    while ((wg = waitpid(cc, &stg, WNOHANG)) == 0 && tries++ < 2000) usleep(1000);
+    P("grand: reaped=%d code=%d pipe_rev=%d\n", wg == cc, WEXITSTATUS(stg), rev(x[0], POLLIN));
+#ifdef SIMK
+    sk_grand_gone(sk_proc_by_pid(cc)); close(g[1]);
+#else
+    close(g[1]);
+    struct pollfd pg = { x[0], POLLIN, 0 }; poll(&pg, 1, 5000);
+#endif
+    P("gone: pipe_rev=%d read=%zd\n", rev(x[0], POLLIN), read(x[0], buf, 4));
+    close(x[0]);
+  }
   /* 13: signal mask */
   sigset_t s, o;
   sigemptyset(&s); sigaddset(&s, SIGTERM); sigaddset(&s, SIGKILL);
